@@ -107,6 +107,14 @@ static void h_run_case(hcase_t* c) {
     rt_name(m->queue_two, sizeof(wsd_work_stealing_deque_t), 2 * t + 2, 1 << 20);
   }
   for (int f = 0; f <= NF; f++) rt_reg((void*)&fibers[f].state, 4, 200 + f, 4);
+  {
+    /* search mode only (RT_CATCHALL=1): the rest of every scheduler struct, 1000 locs apart.  The struct is private to
+     * fiber_scheduler_wsd.c: its real size (a changed tree may have added fields) is the stride of the scheduler array */
+    size_t stride = sizeof(sched_mirror_t);
+    if (nthreads >= 2) stride = (size_t)((char*)fiber_scheduler_for_thread(1) - (char*)fiber_scheduler_for_thread(0));
+    if (stride > 1000) stride = 1000;
+    for (int t = 0; t < nthreads; t++) rt_reg_rest(fiber_scheduler_for_thread(t), stride, 3900 + 1000 * t);
+  }
   rt_run(c->nthreads, prog, c->sched, c->nsched, dmax);
   rt_print_trace();
 }
